@@ -48,7 +48,7 @@ UNITS = [
       TAGS + ["tag_member", "tag_member_fragment", "tag_member_keepalive", "tag_member_fragment_alias"], ["C01", "C02", "C03", "C08"], domain="9 tag names x {no pattern, ^x-} x symbolic {unresolved, 4 options}", mem_gb=6, timeout=900, assumes=[A_DROP, A_CLONE, A_FMT]),
     U("U-tag-fragment", ["VueJsxTransformVisitor::is_component"], ["tag_fragment_not_component"], ["C02", "C03", "C10"], domain="`Fragment` x symbolic history", mem_gb=8, assumes=[A_DROP, A_FMT]),
     U("U-tag-frame", ["VueJsxTransformVisitor::is_component"], ["tagframe_alias_text", "tagframe_foo", "tagframe_div"], ["C10"], domain="2-safety: two visitor states that differ in the Fragment import", mem_gb=8, assumes=[A_DROP, A_FMT]),
-    U("U-tag-two-bindings", ["VueJsxTransformVisitor::transform_tag"], ["tag_same_name_unresolved_then_bound", "tag_same_name_bound_then_unresolved"], ["C10", "C01"], domain="the same tag name with two different bindings in one module, either order x symbolic options", mem_gb=8, timeout=900, assumes=[A_DROP, A_FMT]),
+    U("U-tag-two-bindings", ["VueJsxTransformVisitor::transform_tag"], ["tag_same_name_unresolved_then_bound", "tag_same_name_bound_then_unresolved"], ["C10", "C01"], domain="the same tag name with two different bindings in one module, either order x symbolic options", mem_gb=16, timeout=1500, assumes=[A_DROP, A_FMT]),
     U("U-tag-nojsx", ["VueJsxTransformVisitor::transform_tag"], ["tag_namespaced_no_jsx_leak"], ["C07"], domain="namespaced tag", mem_gb=8, assumes=[A_DROP, A_FMT]),
     U("U-attrs-plain-whole", ["VueJsxTransformVisitor::transform_attrs", "util::is_on", "util::dedupe_props", "directive::is_directive"], PLAIN,
       ["C13", "C01"], completeness="bounded", domain="one attribute: 11 names x {dynamic, value-less, string} x symbolic {host kind, constness, 4 options}; attribute list length 1",
